@@ -432,8 +432,8 @@ func genScenario(t *sim.Tape, r *sim.Run, sweep bool) *scenario {
 			dest := []uint64{uint64(peerID), uint64(peerID), uint64(selfID), 424242, uint64(childID)}[t.Choose(5, "tdest")]
 			amt := amountNear()
 			gasArg := uint64([]int{0, 6, 7, 14, 40}[t.Choose(5, "tgas")])
-			if !sweep && t.Prob(1, 25, "tgas_huge") {
-				gasArg = []uint64{1 << 40, math.MaxUint64}[t.Choose(2, "tgh")]
+			if !sweep && t.Prob(1, 12, "tgas_huge") {
+				gasArg = []uint64{1 << 40, math.MaxUint64, 1 << 63, 1<<63 + 1<<40, math.MaxUint64 - 1000000, 1<<63 - 1}[t.Choose(6, "tgh")]
 			}
 			emit(op, fmt.Sprintf("transfer(%d,%d,gas=%d)", dest, amt, gasArg), map[int]uint64{7: dest, 8: amt, 9: gasArg, 10: ptr(memo)})
 		case hUpgrade:
